@@ -21,7 +21,9 @@ LEVEL = "exploration"
 ATOMS = ["a", " a", "a ", " a ", "\na", "a\nb", "k=v", " k = v ", "k=\nv", "2=v", "02=v", "k= v w ", "x y",
          "3= p ", "j =w", "m=v\nw", " n = a\n b ", " 4 =q", "\n5 = r\n", "²=s", "٣=t",
          # names Lua's tonumber() accepts but the argument rule keeps as strings
-         "0=z", "-1=n", "1e1=e", "0x10=h", "1.0=f"]
+         "0=z", "-1=n", "1e1=e", "0x10=h", "1.0=f",
+         # a positional value with a line made of blanks only; names with a quote / an ampersand / a run of blanks
+         " \na", "a\n \nb", "1001=big", "a  b=c"]
 SMALL = ["a", " b ", "k=v", "2=w", "\nc"]
 ECHO = r"""
 local e = {}
@@ -111,11 +113,15 @@ def check(ctx, lst):
     out = []
     js = lambda d: sorted(((str(type(k).__name__), str(k)), v) for k, v in d.items())  # noqa: E731
     if v1 != r:
-        out.append(("parser_view_equals_rule", js(v1), js(r)))
+        # known finding: the tokenizer drops lines that consist of blanks only, in argument values too
+        import re as _re
+        blank_line = any(_re.search(r"(^|\n)[ \t]+(\n|$)", a) for a in lst if "=" not in a)
+        out.append(("parser_view_blank_only_line" if blank_line else "parser_view_equals_rule", js(v1), js(r)))
     if v2 != r:
         out.append(("expander_view_equals_rule", js(v2), js(r)))
     if v3 != r:
-        out.append(("lua_view_equals_rule", js(v3), js(r)))
+        big = any(isinstance(k, int) and k > 1000 for k in r)   # deliberate clamp of numbered names above 1000 (with a warning)
+        out.append(("lua_view_index_above_1000" if big else "lua_view_equals_rule", js(v3), js(r)))
     return out
 
 
